@@ -204,6 +204,34 @@ var ianaLabels = map[string]int64{
 	"HeaderLabelCounterSignatureV2": 11, "HeaderLabelCounterSignature0V2": 12, "HeaderLabelType": 16,
 }
 
+// checkValuePredicateKinds: the value predicates the validators (and the
+// crit helper, whose elements become map keys) rely on are identified by
+// their kind tables: exactly the ten integer kinds / the unsigned kinds and
+// non-negative signed ones / string / non-nil []byte. A predicate that admits
+// another dynamic type (a named uint8 such as cbor.SimpleValue, big.Int, ...)
+// no longer belongs to its class and the class is reported missing.
+func checkValuePredicateKinds(r *Report, rule string) (map[string][]*ssa.Function, map[string]string) {
+	P := r.P
+	classes := map[string][]*ssa.Function{}
+	isClass := map[string]string{}
+	for _, pc := range P.valuePredicates() {
+		if pc.class != "" {
+			classes[pc.class] = append(classes[pc.class], pc.fn)
+			isClass[shortFn(pc.fn)] = pc.class
+		}
+		r.sample(map[string]any{"predicate": shortFn(pc.fn), "accepts": pc.kinds.String(), "class": pc.class})
+	}
+	for _, c := range []string{"int", "uint", "tstr", "bstr"} {
+		o := r.ob(rule, "predicate:"+c, nil, nil, "a value predicate with exactly the "+c+" kind table exists")
+		var ns []string
+		for _, f := range classes[c] {
+			ns = append(ns, shortFn(f))
+		}
+		o.check(len(classes[c]) > 0, strings.Join(ns, ","), "no in-package func(any) bool accepts exactly the "+c+" kinds (a kind was added or lost)")
+	}
+	return classes, isClass
+}
+
 func runC13(r *Report, tier string) {
 	P := r.P
 	r.rule("R13.1", "the validator's per-entry paths, lowered to a table label -> conditions on the way to acceptance, satisfy RFC 9052 3.1 / RFC 9338: alg: Algorithm|int|tstr; crit: protected only, crit helper succeeded; content type / typ: uint, or tstr non-empty without leading/trailing space and with exactly one '/'; kid, IV, Partial IV: bstr; IV and Partial IV exclude each other; 7/11: unprotected only, countersignature value predicate; 9/12: unprotected only, bstr; every label normalises and is not a duplicate. The value predicates are identified and checked by their kind tables (int: ten integer kinds; uint: unsigned kinds, signed with >= 0; tstr: string; bstr: non-nil []byte - a nil slice would be emitted as CBOR null); label constants equal their IANA values.")
@@ -223,23 +251,7 @@ func runC13(r *Report, tier string) {
 		r.ob("R13.1", "const:"+name, nil, nil, fmt.Sprintf("%s == %d (IANA)", name, v)).check(ok && got == v, fmt.Sprintf("%d", got), fmt.Sprintf("%s = %d, IANA value is %d", name, got, v))
 	}
 	// predicates by kind table
-	classes := map[string][]*ssa.Function{}
-	isClass := map[string]string{}
-	for _, pc := range P.valuePredicates() {
-		if pc.class != "" {
-			classes[pc.class] = append(classes[pc.class], pc.fn)
-			isClass[shortFn(pc.fn)] = pc.class
-		}
-		r.sample(map[string]any{"predicate": shortFn(pc.fn), "accepts": pc.kinds.String(), "class": pc.class})
-	}
-	for _, c := range []string{"int", "uint", "tstr", "bstr"} {
-		o := r.ob("R13.1", "predicate:"+c, nil, nil, "a value predicate with exactly the "+c+" kind table exists")
-		var ns []string
-		for _, f := range classes[c] {
-			ns = append(ns, shortFn(f))
-		}
-		o.check(len(classes[c]) > 0, strings.Join(ns, ","), "no in-package func(any) bool accepts exactly the "+c+" kinds (a kind was added or lost)")
-	}
+	_, isClass := checkValuePredicateKinds(r, "R13.1")
 	// R13.7 normaliser
 	{
 		kt, ok, why := P.acceptedKinds(norm)
